@@ -75,9 +75,11 @@ def wrapInt (bits : Nat) (signed : Bool) (x : Int) : Int :=
   let r := x % m
   if signed && r ≥ m / 2 then r - m else r
 
+/-- storing the number `n / 2^e` in an array of dtype `dt`: an integer dtype truncates toward
+    zero (numpy float -> int assignment) and wraps around; other dtypes keep the value -/
 def DT.wrap (dt : DT) (x : Int × Nat) : Int × Nat :=
   match dt with
-  | .int b s => (wrapInt b s x.1, 0)
+  | .int b s => (wrapInt b s (Int.tdiv x.1 (2 ^ x.2)), 0)
   | _ => x
 
 /-- `hpgeom.UNSEEN` as float64 and as float32 (exact integers). -/
